@@ -18,6 +18,7 @@
 //       (read_string_sched h:<data> <schedule>)  -> (OK bdd) | ERR
 //       (write_bytes_sched <bdd> <schedule>)     -> (P OK|ERR h:<bytes the writer accepted>)
 //       (write_string_sched <bdd> <schedule>)    -> (P OK|ERR h:<bytes the writer accepted>)
+//       (dot_write_sched <bdd> (L names) <pruned> <schedule>) -> (P OK|ERR h:<bytes the writer accepted>)
 use crate::ops::*;
 use crate::sexp::S;
 use biodivine_lib_bdd::*;
@@ -180,6 +181,17 @@ pub fn run(c: &[S]) -> Option<S> {
             let res = {
                 let output: &mut dyn Write = &mut w;
                 b.write_as_string(output)
+            };
+            S::list("P", vec![S::atom(if res.is_ok() { "OK" } else { "ERR" }), e_hex(&w.accepted)])
+        }
+        // (dot_write_sched <bdd> (L names) <pruned> <schedule>) -> (P OK|ERR h:<bytes the writer accepted>)
+        "dot_write_sched" => {
+            let b = d_bdd(&a[0]);
+            let vs = BddVariableSet::from(d_names(&a[1]));
+            let mut w = SchedWriter { accepted: Vec::new(), sched: d_sched(&a[3]) };
+            let res = {
+                let output: &mut dyn Write = &mut w;
+                b.write_as_dot_string(output, &vs, d_bool(&a[2]))
             };
             S::list("P", vec![S::atom(if res.is_ok() { "OK" } else { "ERR" }), e_hex(&w.accepted)])
         }
